@@ -41,7 +41,9 @@ func c06Inputs(tier, mode string) []c06Input {
 		return v
 	}
 	var out []c06Input
-	add := func(label, body string, noAnswer bool) { out = append(out, c06Input{Label: label, Body: body, NoAnswer: noAnswer}) }
+	add := func(label, body string, noAnswer bool) {
+		out = append(out, c06Input{Label: label, Body: body, NoAnswer: noAnswer})
+	}
 	// A. the structural-mutation alphabet of C03 (rpc cases of this mode)
 	for _, c := range c03Cases(tier) {
 		if c.Mode == mode && c.Kind == "rpc" {
@@ -372,9 +374,9 @@ func c06Concurrent(prefix []int, mode string, bad string) explore.Outcome {
 }
 
 var c06ConcBad = map[string]string{
-	"truncated": `{"jsonrpc":"2.0","id":9,"method":"tools/call","params":{"name":"t","argu`,
-	"id-object": `{"jsonrpc":"2.0","id":{"a":1},"method":"tools/call","params":{"name":"t"}}`,
-	"deep":      `{"jsonrpc":"2.0","id":9,"method":"tools/call","params":{"name":"t","arguments":{"v":` + c06Nest("[", "]", 1000, "1") + `}}}`,
+	"truncated":   `{"jsonrpc":"2.0","id":9,"method":"tools/call","params":{"name":"t","argu`,
+	"id-object":   `{"jsonrpc":"2.0","id":{"a":1},"method":"tools/call","params":{"name":"t"}}`,
+	"deep":        `{"jsonrpc":"2.0","id":9,"method":"tools/call","params":{"name":"t","arguments":{"v":` + c06Nest("[", "]", 1000, "1") + `}}}`,
 	"handler-nan": `{"jsonrpc":"2.0","id":9,"method":"tools/call","params":{"name":"t","arguments":{"mode":"nan"}}}`,
 }
 
